@@ -9,6 +9,8 @@
    C01e  the strided (lam, mu) loops of type 1 visit exactly the entries of the type-1 table that makeW writes
    C01f  hence the strided double loop of type 1 equals the full double sum over all table entries (lossless)
    C01g  three-dimensional binomial shift over exactly the index triples the contractions visit
+   C12Cases  (shared with C12) every closed-form radial case of the working tree equals the recurrence it was generated from - an
+         edited coefficient in radial_gen.cpp changes whole blocks, so the case theorems are obligations of this property too
    The contraction algebra shared with C07/C09 is in Props/C07.lean and Props/C09.lean. -/
 import Ecpint.Props.C01a
 import Ecpint.Props.C01b
@@ -17,3 +19,4 @@ import Ecpint.Props.C01d
 import Ecpint.Props.C01e
 import Ecpint.Props.C01f
 import Ecpint.Props.C01g
+import Ecpint.Props.C12Cases
